@@ -122,6 +122,22 @@ type launchEnv struct {
 	n       int
 	keep    []io.Closer
 	slow    int // budget of cases that wait for a registration time-out
+	late    int // number of waits for a process to disappear that ran to the end of their margin
+}
+
+// waitGone is waitGone with a budget: on a tree that leaves processes behind everywhere, only the first few
+// survivors are given the full margin (the run has its failing inputs by then); the others get half a second,
+// so that the run ends with a verdict instead of the driver's time limit.  On a tree that reaps its plugins no
+// wait ever reaches its margin and nothing changes.
+func (e *launchEnv) waitGone(pid int, d time.Duration) string {
+	if e.late >= 3 && d > 500*time.Millisecond {
+		d = 500 * time.Millisecond
+	}
+	st := waitGone(pid, d)
+	if st != "" {
+		e.late++
+	}
+	return st
 }
 
 func copyFile(src, dst string, mode uint32) error {
@@ -439,7 +455,7 @@ func (e *launchEnv) run(lc *launchCase) error {
 				fire(true, "runpod", "ev5")
 				for i := range lc.Obs {
 					if o := lc.Outcomes[lc.Obs[i].File]; o == probe.BDieLater || o == probe.BHangLater {
-						lc.Obs[i].Reaped = stateCode(waitGone(lc.Obs[i].Pid, 10*time.Second))
+						lc.Obs[i].Reaped = stateCode(e.waitGone(lc.Obs[i].Pid, 10*time.Second))
 					}
 				}
 			}
@@ -455,7 +471,7 @@ func (e *launchEnv) run(lc *launchCase) error {
 		if !active(lc.Outcomes[lc.Obs[i].File]) && lc.Obs[i].AfterStart == 2 {
 			d = 300 * time.Millisecond
 		}
-		lc.Obs[i].AfterStop = stateCode(waitGone(lc.Obs[i].Pid, d))
+		lc.Obs[i].AfterStop = stateCode(e.waitGone(lc.Obs[i].Pid, d))
 	}
 	// leave nothing behind whatever the verdict (a zombie of a plugin the runtime never waited for
 	// disappears with this process)
